@@ -15,11 +15,13 @@ type GenBias struct {
 	Faults     int // throwing scripts, out-of-gas, failed nested calls
 	Attrs      int // percentage of txs carrying attributes (0..100)
 	P2PSig     bool
+	Oracle     int // oracle requests (2 of 5) and oracle responses (3 of 5)
+	Notary     int // notary-assisted transactions (only drawn when P2PSig)
 }
 
 // BalancedBias is the default mixture.
 func BalancedBias(p2psig bool) GenBias {
-	return GenBias{Governance: 4, Value: 3, Storage: 4, Faults: 2, Attrs: 10, P2PSig: p2psig}
+	return GenBias{Governance: 4, Value: 3, Storage: 4, Faults: 2, Attrs: 10, P2PSig: p2psig, Oracle: 2, Notary: 1}
 }
 
 var keyAlphabet = []byte{0x00, 0x01, 0x10, 0xff, 'a', 'b'}
@@ -84,8 +86,20 @@ func genAmount(t *rapid.T, label string, neo bool) int64 {
 // GenAction draws one transaction spec.
 func GenAction(t *rapid.T, bias GenBias) Action {
 	a := Action{Nonce: rapid.Uint32().Draw(t, "nonce"), From: genParty(t, "from")}
-	fam := weighted(t, "family", bias.Governance, bias.Value, bias.Storage, bias.Faults)
+	nw := bias.Notary
+	if !bias.P2PSig {
+		nw = 0
+	}
+	fam := weighted(t, "family", bias.Governance, bias.Value, bias.Storage, bias.Faults, bias.Oracle, nw)
 	switch fam {
+	case 4: // oracle
+		if rapid.IntRange(0, 4).Draw(t, "ok") < 2 {
+			GenOracleRequest(t, &a)
+		} else {
+			GenOracleResponse(t, &a)
+		}
+	case 5: // notary-assisted
+		GenNotaryAssisted(t, &a)
 	case 0: // governance
 		switch rapid.IntRange(0, 13).Draw(t, "gov") {
 		case 0, 1, 2:
@@ -115,7 +129,7 @@ func GenAction(t *rapid.T, bias GenBias) Action {
 			switch a.S {
 			case "setWhitelistFeeContract", "removeWhitelistFeeContract": // A = contract, K = method (put | get | notify), N = fixed fee
 				a.A = rapid.IntRange(0, 2).Draw(t, "wl_contract")
-				a.K = vt.Bytes(rapid.SampledFrom([]string{"put", "put", "get", "notify"}).Draw(t, "wl_method"))
+				a.K = vt.Bytes(rapid.SampledFrom([]string{"put", "put", "get", "notify", "oracleCb"}).Draw(t, "wl_method"))
 				a.N = rapid.SampledFrom([]int64{0, 1, 1000, 123456, 10000000}).Draw(t, "wl_fee")
 			case "setFeePerByte":
 				a.N = rapid.Int64Range(0, 3000).Draw(t, "v")
@@ -233,9 +247,7 @@ func GenAction(t *rapid.T, bias GenBias) Action {
 			a.K = vt.Bytes{byte(genParty(t, "to"))}
 			a.N = rapid.Int64Range(0, 3).Draw(t, "amt")
 		case k == 15:
-			a.Kind = "oracle_request" // via a deployed contract: pays the Oracle price, adds a pending request
-			a.S = rapid.SampledFrom([]string{"a", "b", "c"}).Draw(t, "url")
-			a.V = GenStorageVal(t, "ud")
+			GenOracleRequest(t, &a) // via a deployed contract: pays the Oracle price, adds a pending request
 		case k == 14:
 			a.Kind, a.S = "invoke", "find"
 			a.K = GenStorageKey(t, "k")
@@ -277,6 +289,72 @@ func GenAction(t *rapid.T, bias GenBias) Action {
 	a.VUB = uint32(rapid.IntRange(0, 4).Draw(t, "vub"))
 	a.Scope = rapid.SampledFrom([]int{0, 0, 0, 1}).Draw(t, "scope")
 	return a
+}
+
+// GenOracleRequest fills an oracle_request: contract, url, user data, callback and the gas the response may spend.
+func GenOracleRequest(t *rapid.T, a *Action) {
+	a.Kind = "oracle_request"
+	a.A = rapid.IntRange(0, 4).Draw(t, "contract")
+	a.S = rapid.SampledFrom([]string{"a", "b", "c"}).Draw(t, "url")
+	a.V = GenStorageVal(t, "ud")
+	a.B = rapid.SampledFrom([]int{0, 1, 1, 1, 1, 2, 2}).Draw(t, "cb")
+	a.N = rapid.SampledFrom([]int64{0, 2000_0000, 5000_0000, 5000_0000, 1_0000_0000, 3_0000_0000}).Draw(t, "gfr")
+}
+
+// GenOracleResponse fills an oracle_response (pending request by index, code, result, fee adjustment).
+func GenOracleResponse(t *rapid.T, a *Action) {
+	a.Kind = "oracle_response"
+	a.A = rapid.IntRange(0, 5).Draw(t, "req")
+	a.B = rapid.IntRange(0, len(OracleCodes)-1).Draw(t, "code")
+	a.V = GenStorageVal(t, "result")
+	switch rapid.IntRange(0, 19).Draw(t, "adj") {
+	case 0: // less than the request paid for: admission must refuse it
+		a.GasAdj = -rapid.Int64Range(1, 6000_0000).Draw(t, "short")
+	case 1, 2: // more than the request paid for (taken from the gas of the other pending requests, if any)
+		a.GasAdj = rapid.Int64Range(1, 2000_0000).Draw(t, "over")
+	}
+}
+
+// GenNotaryAssisted fills a notary_assisted action (see flows.go for the modes).
+func GenNotaryAssisted(t *rapid.T, a *Action) {
+	a.Kind = "notary_assisted"
+	a.From = rapid.SampledFrom([]int{0, 0, 0, 1, 1, 1, 2, 3, 4}).Draw(t, "depositor") // 0 and 1 have bootstrap deposits
+	a.A = rapid.IntRange(0, 3).Draw(t, "nkeys")
+	a.N = int64(rapid.IntRange(0, 2).Draw(t, "node"))
+	a.B = rapid.SampledFrom([]int{NAExact, NAExact, NAExact, NAExact, NAExact, NAExact, NAWholeDeposit, NAOverDeposit, NAThirdSigner, NACosigner, NACosigner}).Draw(t, "mode")
+	in := Action{}
+	switch rapid.IntRange(0, 7).Draw(t, "inner") {
+	case 0, 1, 2:
+		in.Kind = "gas_transfer"
+		in.A = genParty(t, "to")
+		in.N = genAmount(t, "amt", false)
+		if rapid.IntRange(0, 3).Draw(t, "assert") == 0 {
+			in.S = "assert"
+		}
+	case 3:
+		in.Kind, in.S = "invoke", "put"
+		in.A = rapid.IntRange(0, 4).Draw(t, "contract")
+		in.K, in.V = GenStorageKey(t, "k"), GenStorageVal(t, "v")
+	case 4:
+		in.Kind, in.S = "invoke", "notify"
+		in.A = rapid.IntRange(0, 4).Draw(t, "contract")
+		in.V = GenStorageVal(t, "v")
+	case 5:
+		in.Kind = "throw"
+	case 6:
+		in.Kind, in.S = "invoke", "put_then_fail"
+		in.A = rapid.IntRange(0, 4).Draw(t, "contract")
+		in.K, in.V = GenStorageKey(t, "k"), GenStorageVal(t, "v")
+	default: // out of gas in the middle of a multi-write
+		in.Kind = "multi_put"
+		in.A = rapid.IntRange(0, 4).Draw(t, "contract")
+		in.N = rapid.Int64Range(2, 5).Draw(t, "n")
+		in.K, in.V = GenStorageKey(t, "k"), GenStorageVal(t, "v")
+		if rapid.Bool().Draw(t, "oog") {
+			in.GasAdj = -rapid.Int64Range(1, 3000000).Draw(t, "short")
+		}
+	}
+	a.Inner = &in
 }
 
 func weighted(t *rapid.T, label string, w ...int) int {
